@@ -16,7 +16,7 @@ CONSTANTS
   ConfSet = {}
   Weights = {600, 4000}
   Budgets = {1000, 2000, 2001, 2002, 2003}
-  MaxRates = {400, 100000}
+  MaxVbs = {2, 400}
   InSets = {1, 2, 3, 4}
   Conf0 = 3
   H0 = 100
